@@ -5,8 +5,9 @@ replay_one = machine.replay_one
 
 
 def run(chk):
-    res = machine.tlc_family(chk, "FamAlias", chk.tier)
-    cases = machine.expand(res.cases, "alias", layouts=("canon",) if chk.tier == "quick" else ("canon", "tight"))
+    lys = ("canon",) if chk.tier == "quick" else ("canon", "tight")
+    res = machine.tlc_family(chk, "FamAlias", chk.tier, layouts=lys)
+    cases = machine.expand(res.cases, "alias", layouts=lys)
     chk.rule = ("alias triples of family FamAlias: alias made by :=, typed declaration + =, re-assignment, parameter, "
                 "variadic parameter, return value, array-literal element, map-literal value, any variable, any element, "
                 "loop variable, slice/concatenation/repetition, reads of err/errmsg; update by assignment or in-place "
